@@ -64,25 +64,26 @@ type connJ struct {
 }
 
 type worldJ struct {
-	Name          string         `json:"name"`
-	Aw            bool           `json:"aw"`
-	RootSpelling  string         `json:"rootSpelling,omitempty"` // abs | rel | dot | trailing
-	RootName      string         `json:"rootName,omitempty"`
-	Sentinel      bool           `json:"sentinel,omitempty"`
-	Nodes         []nodeJ        `json:"nodes"`
-	Views         []viewJ        `json:"views,omitempty"`
-	Conns         []connJ        `json:"conns"`
-	Schedule      string         `json:"schedule,omitempty"` // seq | rr | conc
-	LedgerBelow   bool           `json:"ledgerBelow,omitempty"`
-	Faults        map[int]string `json:"faults,omitempty"`
-	ReadTimeoutMs int            `json:"readTimeoutMs,omitempty"`
-	BufferSize    int64          `json:"bufferSize,omitempty"`
-	Probe         bool           `json:"probe,omitempty"`
-	AllViews      bool           `json:"allViews,omitempty"`     // reference images for every directory of the tree, both modes
-	ReadChunk     int            `json:"readChunk,omitempty"`    // deliver request bytes to the server in pieces of at most this size
-	Quiesce       bool           `json:"quiesce,omitempty"`      // after all connections ended: report leftover goroutines / handles
-	WriteDelayUs  int            `json:"writeDelayUs,omitempty"` // every server-side Write blocks this long (slow peer)
-	LogOps        bool           `json:"logOps,omitempty"`
+	Name             string         `json:"name"`
+	Aw               bool           `json:"aw"`
+	RootSpelling     string         `json:"rootSpelling,omitempty"` // abs | rel | dot | trailing
+	RootName         string         `json:"rootName,omitempty"`
+	Sentinel         bool           `json:"sentinel,omitempty"`
+	Nodes            []nodeJ        `json:"nodes"`
+	Views            []viewJ        `json:"views,omitempty"`
+	Conns            []connJ        `json:"conns"`
+	Schedule         string         `json:"schedule,omitempty"` // seq | rr | conc
+	LedgerBelow      bool           `json:"ledgerBelow,omitempty"`
+	Faults           map[int]string `json:"faults,omitempty"`
+	ReadTimeoutMs    int            `json:"readTimeoutMs,omitempty"`
+	BufferSize       int64          `json:"bufferSize,omitempty"`
+	Probe            bool           `json:"probe,omitempty"`
+	AllViews         bool           `json:"allViews,omitempty"`         // reference images for every directory of the tree, both modes
+	ReadChunk        int            `json:"readChunk,omitempty"`        // deliver request bytes to the server in pieces of at most this size
+	Quiesce          bool           `json:"quiesce,omitempty"`          // after all connections ended: report leftover goroutines / handles
+	WriteDelayUs     int            `json:"writeDelayUs,omitempty"`     // every server-side Write blocks this long (slow peer)
+	AcceptFaultEvery int            `json:"acceptFaultEvery,omitempty"` // every n-th Accept of the listener fails with a temporary error (EMFILE-like)
+	LogOps           bool           `json:"logOps,omitempty"`
 }
 
 type scriptJ struct {
@@ -408,6 +409,7 @@ func runWorld(pt *protoTable, wj *worldJ, em *emitter, index int) error {
 		Logger:      slog.Default(),
 	}
 	ln := newMemListener()
+	ln.failEvery = wj.AcceptFaultEvery
 	env := &sessionEnv{pt: pt, w: w, wj: wj, ledger: ledger, ln: ln, reg: reg, em: em, srvErr: make(chan error, 1), index: index}
 	go func() { env.srvErr <- srv.Serve(ln) }()
 	defer ln.Close()
